@@ -54,6 +54,14 @@ func buildWAL(r *common.Rand, ps int, be bool, frames [][2]uint32) []byte {
 	for _, f := range frames {
 		h := make([]byte, 24)
 		data := r.Bytes(ps)
+		if f[0] == 1 && ps >= 512 {
+			// page 1 always carries a well-formed database header (size: the commit size, else a plausible one)
+			n := f[1]
+			if n == 0 {
+				n = 1
+			}
+			lfs.SetHeader(data, ps, n, true)
+		}
 		binary.BigEndian.PutUint32(h[0:], f[0])
 		binary.BigEndian.PutUint32(h[4:], f[1])
 		binary.BigEndian.PutUint32(h[8:], salt1)
@@ -683,7 +691,58 @@ func walAtOpen(c *common.Ctx) error {
 		}
 		var wal []byte
 		kind := ""
-		switch r.Intn(6) {
+		want := pre // what Open must leave: the committed database
+		switch r.Intn(8) {
+		case 6, 7:
+			// k committed transactions followed by valid frames of one that never committed (no transaction
+			// log: the checkpoint at Open takes the committed ones and only those)
+			k := r.Intn(4)
+			kind = fmt.Sprintf("%d-commits-then-uncommitted", k)
+			withLog = false
+			_ = os.RemoveAll(filepath.Join(dbDir, "ltx"))
+			size := uint32(len(pre.Pages))
+			var frames [][2]uint32
+			for t := 0; t < k; t++ {
+				nf := 1 + r.Intn(3)
+				for j := 0; j < nf; j++ {
+					pg := uint32(1 + r.Intn(int(size)+1))
+					commit := uint32(0)
+					if j == nf-1 {
+						pg = 1 // SQLite rewrites page 1 (size, change counter) in every transaction; it carries the commit size
+						commit = size
+					} else if pg > size {
+						size = pg
+					}
+					frames = append(frames, [2]uint32{pg, commit})
+				}
+			}
+			for j := 0; j < 1+r.Intn(3); j++ {
+				frames = append(frames, [2]uint32{uint32(1 + r.Intn(int(size))), 0})
+			}
+			wal = buildWAL(r, ps, r.Bool(), frames)
+			if vf, _, ok := lfs.ReadWALValid(wal); ok && len(pre.Pages) > 0 {
+				img := pre.Clone()
+				last := -1
+				for i, f := range vf {
+					if f.Commit != 0 {
+						last = i
+					}
+				}
+				var csize uint32
+				for i := 0; i <= last; i++ {
+					for uint32(len(img.Pages)) < vf[i].Pgno {
+						img.Pages = append(img.Pages, make([]byte, ps))
+					}
+					img.Pages[vf[i].Pgno-1] = vf[i].Data
+					if vf[i].Commit != 0 {
+						csize = vf[i].Commit
+					}
+				}
+				if last >= 0 && int(csize) <= len(img.Pages) {
+					img.Pages = img.Pages[:csize]
+				}
+				want = img
+			}
 		case 0:
 			kind, wal = "zero-filled", make([]byte, 32+r.Intn(3)*(24+ps)+r.Intn(40))
 		case 1:
@@ -732,11 +791,21 @@ func walAtOpen(c *common.Ctx) error {
 			return nil
 		case pan != "" || (oerr != nil && strings.Contains(oerr.Error(), "panicked")):
 			c.Violate(key+":panic", fmt.Sprintf("Open panicked on a %d-byte %s WAL: %s %v", len(wal), kind, pan, oerr), rep)
+		case oerr != nil && strings.HasSuffix(kind, "then-uncommitted"):
+			c.Violate("C17:wal-at-open:committed-prefix:open", fmt.Sprintf("Open failed on a well-formed WAL of %s: %v", kind, oerr), rep)
 		case oerr == nil:
 			got, _ := lfs.ReadImage(dbDir)
 			if withLog && len(pre.Pages) > 0 {
 				if eq, why := got.Equal(pre); !eq {
 					c.Violate(key+":image", "Open with an invalid WAL changed the committed database: "+why, rep)
+				}
+			}
+			if strings.HasSuffix(kind, "then-uncommitted") {
+				c.Count("wal_at_open_committed_prefix_checked", 1)
+			}
+			if strings.HasSuffix(kind, "then-uncommitted") && len(pre.Pages) > 0 {
+				if eq, why := got.Equal(want); !eq {
+					c.Violate("C17:wal-at-open:committed-prefix", fmt.Sprintf("Open on a WAL of %s did not leave exactly the committed transactions in the database: %s", kind, why), rep)
 				}
 			}
 		}
